@@ -283,6 +283,7 @@ package gorm
 //@   in gorm.(*PreparedStmtDB).* gorm.(*PreparedStmtTX).*
 //@   requires runlock-while-read-held: held == 1 [C14]
 //@   do held = 0
+//@   do lastLookupHeld = 0
 //@ event call (*RWMutex).Lock
 //@   in gorm.(*PreparedStmtDB).* gorm.(*PreparedStmtTX).*
 //@   requires lock-taken-while-free: held == 0 [C14]
@@ -292,10 +293,12 @@ package gorm
 //@   in gorm.(*PreparedStmtDB).* gorm.(*PreparedStmtTX).*
 //@   requires unlock-while-write-held: held == 2 [C14]
 //@   do held = 0
+//@   do lastLookupHeld = 0
 //@ event mapread PreparedStmtDB.Stmts
 //@   requires cache-read-under-lock: held >= 1 [C14]
 //@ event mapwrite PreparedStmtDB.Stmts
 //@   requires cache-write-under-write-lock: held == 2 [C14]
+//@   requires insert-follows-a-lookup-under-the-same-write-lock: lastLookupHeld == 2 [C14]
 //@   do inserted = inserted + 1
 //@ event mapdelete PreparedStmtDB.Stmts
 //@   requires cache-delete-under-write-lock: held == 2 [C14]
@@ -323,6 +326,7 @@ package gorm
 //@   do ranged = ranged + arg0
 //@ event maplookup PreparedStmtDB.Stmts
 //@   do usable = ite(arg1 && (!arg0.Transaction || isTransaction), 1, 0)
+//@   do lastLookupHeld = held
 //@ event close
 //@   in gorm.(*PreparedStmtDB).* gorm.(*PreparedStmtTX).*
 //@   do closes = closes + 1
@@ -427,8 +431,8 @@ package gorm
 //@   match call gorm.(SoftDeleteQueryClause).ModifyStatement
 //@   in gorm.(SoftDeleteUpdateClause).ModifyStatement gorm.(SoftDeleteDeleteClause).ModifyStatement
 //@   min-sites 2
-//@   assert same-field-and-zero-value: arg0.Field == sd.Field && arg0.ZeroValue == sd.ZeroValue [C08]
-//@   assert same-statement: arg1 == stmt [C08]
+//@   assert same-field-and-zero-value: arg0.Field == sd.Field && arg0.ZeroValue == sd.ZeroValue [C08,C02]
+//@   assert same-statement: arg1 == stmt [C08,C02]
 //@ site soft-delete-rewrite-is-filtered
 //@   match call gorm.(*Statement).Build
 //@   in gorm.(SoftDeleteDeleteClause).ModifyStatement
@@ -528,7 +532,8 @@ package gorm
 
 //@ func (*DB).Begin
 //@   tags C04
-//@   modifies *db.cacheStore, db.Statement.ConnPool, ghost opened
+//@   assumes handle-has-a-context: db.Statement != nil && db.Statement.Context != nil
+//@   modifies *db.cacheStore, ghost opened
 //@   ensures at-most-one-driver-begin: opened <= old(opened) + 1 && opened >= old(opened)
 //@   ensures no-transaction-without-success: result.Error != nil ==> opened == old(opened)
 //@   ensures failure-is-reported: opened == old(opened) ==> result.Error != nil
@@ -698,7 +703,7 @@ package gorm
 //@   match call gorm.(*DB).executeScopes
 //@   in gorm.(*Statement).BuildCondition
 //@   min-sites 1
-//@   assert not-on-a-reusable-handle: arg0.clone <= 0 [C06,C09]
+//@   assert not-on-a-reusable-handle: arg0.clone <= 0 [C06,C09,C02]
 //@ # BuildCondition's overall frame is trusted (reflection), but its element stores are swept: a condition list is
 //@ # only ever written in an array the call allocated (finding F14: the WHERE list of a *DB argument was rewritten
 //@ # in place).
@@ -964,6 +969,45 @@ package gorm
 //@   not-in gorm.(*DB).WithContext gorm.(*DB).Debug
 //@   min-sites 10
 //@   assert no-foreign-context: arg1.Context == nil || arg1.Context == arg0.Statement.Context [C18]
+
+//@ # ---------- C14: "prepared at most once": a statement is put into the cache only after the cache was looked up
+//@ # under the same hold of the write lock (the double check), see the events above; inside a transaction the cached
+//@ # statement is run through the transaction (Tx.StmtContext), never directly on the connection it was prepared on.
+//@ ghost lastLookupHeld txStmt
+//@ event invoke Tx.StmtContext
+//@   in gorm.(*PreparedStmtTX).*
+//@   do txStmt = ref(result)
+//@ site transaction-runs-the-statement-through-the-transaction
+//@   match call database/sql.(*Stmt).ExecContext | call database/sql.(*Stmt).QueryContext | call database/sql.(*Stmt).QueryRowContext
+//@   in gorm.(*PreparedStmtTX).*
+//@   min-sites 3
+//@   entry txStmt == 0
+//@   assert statement-bound-to-the-transaction: txStmt != 0 && ref(arg0) == txStmt [C14,C04]
+
+//@ # ---------- C08/C03: a tolerated parse error still leaves the schema parsed so far in the statement ----------
+//@ # With an explicit Table(...) an "unsupported data type" error of the model is ignored by the callers; the schema
+//@ # (and with it the soft-delete clauses) must be there all the same: the store is reached with an error too.
+//@ site schema-kept-with-a-tolerated-parse-error
+//@   match store Statement.Schema
+//@   in gorm.(*Statement).ParseWithSpecialTableName
+//@   min-sites 1
+//@   cover stored-when-the-parser-reports-an-error: err != nil [C08,C03]
+
+//@ # ---------- C12: adding nothing removes nothing ----------
+//@ # Append on a has-one / belongs-to relation is Replace; Replace with no value is Clear. Append() with an empty list
+//@ # must not get there.
+//@ site append-replaces-only-with-a-value
+//@   match call gorm.(*Association).Replace
+//@   in gorm.(*Association).Append
+//@   min-sites 1
+//@   assert something-to-append: len(arg1) > 0 [C12]
+
+//@ # ---------- C01: a rendered condition re-attached as raw text carries the values bound while rendering it ----------
+//@ site join-table-condition-keeps-its-values
+//@   match store Expr.Vars
+//@   in gorm.(*Association).buildCondition
+//@   min-sites 1
+//@   assert values-of-the-rendered-text: arg0 == joinStmt.Vars [C01]
 
 //@ # ---------- C18/C04: a nested block is set up and undone on the caller's handle ----------
 //@ # SAVEPOINT and ROLLBACK TO SAVEPOINT of a nested Transaction carry the same context (and run on the same
